@@ -242,7 +242,8 @@ class Builder:
         footer = Comment(f'Generated by: dznpy/adv_shell v{VERSION}')
 
         return GeneratedContent(filename=f'{cpp.target_file_basename}.hh',
-                                contents=str(TextBlock([header, cpp.namespace, footer])))
+                                contents=str(TextBlock([header, self._in_namespace(cpp.namespace),
+                                                         footer])))
 
     def _create_sourcefile(self) -> GeneratedContent:
         """Generate a c++ sourcefile according to the current recipe."""
@@ -279,7 +280,15 @@ class Builder:
         footer = Comment(f'Generated by: dznpy/adv_shell v{VERSION}')
 
         return GeneratedContent(filename=f'{cpp.target_file_basename}.cc',
-                                contents=str(TextBlock([header, cpp.namespace, footer])))
+                                contents=str(TextBlock([header, self._in_namespace(cpp.namespace),
+                                                         footer])))
+
+    @staticmethod
+    def _in_namespace(namespace: cpp_gen.Namespace):
+        """Wrap the contents in the namespace of the encapsulee. For an encapsulee in the global
+        namespace there is nothing to wrap in: an unnamed namespace would give the shell internal
+        linkage and make it unusable from any other translation unit."""
+        return namespace if namespace.ns_ids.items else namespace.contents
 
     def _create_creator_info_overview(self) -> Optional[str]:
         """Create the creator information overview"""
